@@ -190,6 +190,25 @@ func goStructPut(obj *object, name string, value Value, throw bool) {
 	objectPut(obj, name, value, throw)
 }
 
+// goStructDefineOwnProperty: Object.defineProperty on a Go field stores the
+// value in the field (or fails); the generic implementation recorded a shadow
+// property that reads never show - a silent no-op.
+func goStructDefineOwnProperty(obj *object, name string, descriptor property, throw bool) bool {
+	goObj := obj.value.(*goStructObject)
+	if field := goObj.getValue(name); field.IsValid() && !(field.Kind() == reflect.Func && goObj.value.MethodByName(name).IsValid()) {
+		value, isData := descriptor.value.(Value)
+		if !isData {
+			// a field cannot become an accessor, and a descriptor without a value has nothing to store
+			return obj.runtime.typeErrorResult(throw)
+		}
+		if goObj.setValue(obj.runtime, name, value) {
+			return true
+		}
+		return obj.runtime.typeErrorResult(throw)
+	}
+	return objectDefineOwnProperty(obj, name, descriptor, throw)
+}
+
 func goStructMarshalJSON(obj *object) json.Marshaler {
 	goObj := obj.value.(*goStructObject)
 	goValue := reflect.Indirect(goObj.value).Interface()
